@@ -4,25 +4,32 @@
    transplanted variant (PartCandidates).                                           *)
 EXTENDS TMMerkle
 
-VARIABLES data, slots, act
-psvars == <<data, slots, act>>
+VARIABLES data, hdr, slots, act
+psvars == <<data, hdr, slots, act>>
 
 PSInit == /\ data \in AllLeaves
+          /\ hdr \in Headers(data)
           /\ slots = [i \in 1..Len(data) |-> Nil]
           /\ act = [name |-> "Init"]
 
-PSAdd(p) == LET r == AddPart([total |-> Len(data), root |-> Root(data)], slots, p) IN
+PSAdd(p) == LET r == AddPart(hdr, slots, p) IN
             /\ slots' = r.slots
             /\ data' = data
+            /\ hdr' = hdr
             /\ act' = [name |-> "AddPart", part |-> p, added |-> r.added, err |-> r.err, pre |-> slots]
 
-PSNext == \E p \in PartCandidates(data) : PSAdd(p)
+PSNext == \E p \in PartCandidates(data) \cup HighBitCandidates(data) : PSAdd(p)
 PSSpec == PSInit /\ [][PSNext]_psvars
 
 PartBinds   == PartBindsAt(data, slots)
 Reassembles == Complete(slots) => slots = data
 \* a repeated or out-of-order delivery never changes what is held
 Idempotent  == [][\A i \in DOMAIN slots : slots[i] # Nil => slots'[i] = slots[i]]_psvars
-PSView == <<data, slots>>
+\* a completed set hashes to the root it was created for (whoever crafted that root)
+CompleteMatchesHeader == Complete(slots) => Root(slots) = hdr.root
+\* a slot is filled only by a part whose path authenticates its bytes at that position under the header
+AdmitOnlyProven == [][\A i \in DOMAIN slots : (slots[i] = Nil /\ slots'[i] # Nil) =>
+                          (act'.part.index = i - 1 /\ PosProven(hdr, act'.part))]_psvars
+PSView == <<data, hdr, slots>>
 
 =============================================================================
